@@ -25,11 +25,13 @@ func init() { log.SetOutput(io.Discard) } // the code under test logs retries, t
 
 // EntrySpec describes one get-entries element (leaf_input, extra_data) as data.
 type EntrySpec struct {
-	Base      string          // "world" | "nonfatal" | "badcert" | "random"
+	Base      string          // "world" | "nonfatal" | "badcert" | "laxcert" | "random"
 	Spec      world.ChainSpec // world / nonfatal / badcert: the chain around the leaf
 	Timestamp uint64
 	Ext       []byte
 	R1, R2    []byte // random: leaf_input / extra_data; badcert: certificate / TBS bytes
+	Shape     int    // laxcert: 0 = as issued, 1-3 = a shape only the relaxed ASN.1 rules accept (see laxify)
+	Stray     []byte // laxcert: bytes following the certificate / TBS inside its vector
 	Muts      []TMut
 }
 
@@ -69,14 +71,21 @@ func genExt(t *rapid.T, label string) []byte {
 
 func genEntrySpec(t *rapid.T, label string, maxMuts int) EntrySpec {
 	e := EntrySpec{Timestamp: genTimestamp(t, label+".ts"), Ext: genExt(t, label+".ext")}
-	switch k := rapid.IntRange(0, 19).Draw(t, label+".base"); {
+	switch k := rapid.IntRange(0, 21).Draw(t, label+".base"); {
 	case k < 11:
 		e.Base = "world"
 		e.Spec = world.GenSpec(t, label)
-	case k < 14:
+	case k < 13:
 		e.Base = "nonfatal"
 		e.Spec = world.GenSpec(t, label)
-	case k < 17:
+	case k < 16:
+		e.Base = "laxcert"
+		e.Spec = world.GenSpec(t, label)
+		e.Shape = rapid.IntRange(0, 3).Draw(t, label+".shape")
+		if rapid.IntRange(0, 3).Draw(t, label+".hasstray") != 0 {
+			e.Stray = rapid.SliceOfN(rapid.Byte(), 1, 3).Draw(t, label+".stray")
+		}
+	case k < 18:
 		e.Base = "badcert"
 		e.Spec = world.GenSpec(t, label)
 		e.R1 = rapid.SliceOfN(rapid.Byte(), 1, 40).Draw(t, label+".cert")
@@ -138,6 +147,12 @@ func buildEntry(e EntrySpec) (leaf, extra []byte) {
 				ent = rfc6962.Entry{Type: rfc6962.PrecertEntry, TBS: c.TBS, IssuerKeyHash: b.Issuer.SPKIHash()}
 			} else {
 				ent = rfc6962.Entry{Type: rfc6962.X509Entry, Cert: c.DER}
+			}
+		case "laxcert":
+			if b.Spec.Precert {
+				ent.TBS = append(laxify(ent.TBS, true, e.Shape), e.Stray...)
+			} else {
+				ent.Cert = append(laxify(ent.Cert, false, e.Shape), e.Stray...)
 			}
 		case "badcert":
 			if b.Spec.Precert {
@@ -259,6 +274,7 @@ type refEntry struct {
 	chain   [][]byte
 	fatal   bool  // the lenient parser refuses the certificate / TBSCertificate outright
 	certErr error // its complaint, fatal or not
+	stray   int   // bytes after the DER value inside the certificate / TBS vector (always fatal)
 }
 
 func refDecodeEntry(leafIn, extra []byte) (r refEntry) {
@@ -305,6 +321,20 @@ func refDecodeEntry(leafIn, extra []byte) (r refEntry) {
 		_, r.certErr = x509.ParseTBSCertificate(l.Entry.TBS)
 	}
 	r.fatal = x509.IsFatal(r.certErr)
+	// Independent of the parser: a certificate / TBSCertificate vector holds exactly one DER value. Bytes
+	// after it mean the parsed certificate cannot cover what leaf_input holds, whichever rules (strict or
+	// relaxed) the parser needed for the value itself.
+	body := l.Entry.Cert
+	if l.Entry.Type == rfc6962.PrecertEntry {
+		body = l.Entry.TBS
+	}
+	if _, rest, err := derx.Parse(body); err == nil && len(rest) > 0 {
+		r.stray = len(rest)
+		r.fatal = true
+		if r.certErr == nil || !x509.IsFatal(r.certErr) {
+			r.certErr = fmt.Errorf("%d bytes follow the DER value inside the certificate vector (parser said: %v)", len(rest), r.certErr)
+		}
+	}
 	return r
 }
 
@@ -472,6 +502,9 @@ func judgeEntry(v *harness.Verdict, leafIn, extra []byte, index int64) {
 	switch {
 	case r.fatal:
 		v.Class("entry:cert-fatal")
+		if r.stray > 0 {
+			v.Class("entry:cert-stray-bytes")
+		}
 		if le != nil {
 			v.Failf("entry-accepts-unparsable-cert", "LogEntryFromLeaf returned an entry although the certificate does not parse: %v", r.certErr)
 		}
@@ -502,6 +535,9 @@ func genDec(t *rapid.T) DecCase {
 func checkDec(t *testing.T, c DecCase) (v harness.Verdict) {
 	leaf, extra := buildEntry(c.Entry)
 	v.Class("base:" + c.Entry.Base)
+	if c.Entry.Base == "laxcert" {
+		v.Class(fmt.Sprintf("laxcert:shape%d:stray%v", c.Entry.Shape, len(c.Entry.Stray) > 0))
+	}
 	for _, m := range c.Entry.Muts {
 		v.Class("tmut:" + m.Kind)
 	}
@@ -513,7 +549,7 @@ func checkDec(t *testing.T, c DecCase) (v harness.Verdict) {
 // Decoder is the entry-decoder half of C12.
 var Decoder = harness.Define(harness.Opts{
 	Name:  "decoder",
-	Rule:  "(leaf_input, extra_data) built by the reference encoder from a generated PKI chain (x509 or precert, with / without pre-issuer; a leaf with a non-fatal parse complaint; 1-40 random bytes in place of the certificate / TBS) or 0-80 + 0-40 random bytes, under 0-3 edits (set / insert / delete byte, truncate, append, version / leaf type / entry type codes incl. 0x8000, length fields +-1..3, extra_data of the other entry type, empty / absent extra_data); ct.RawLogEntryFromLeaf and ct.LogEntryFromLeaf judged against internal/rfc6962 (accept <=> both parts decode completely and, for LogEntryFromLeaf, the certificate parse is non-fatal; on accept tls.Marshal(entry.Leaf) == leaf_input, chain / submitted precertificate / index equal the reference). Non-trivial: >= 1 edit or a base other than a clean chain",
+	Rule:  "(leaf_input, extra_data) built by the reference encoder from a generated PKI chain (x509 or precert, with / without pre-issuer; a leaf with a non-fatal parse complaint; a leaf / TBS in a shape only the relaxed ASN.1 rules accept - non-minimal serial INTEGER, Latin-1 in a PrintableString, zero-length OID - or as issued, followed by 0-3 stray bytes inside its vector; 1-40 random bytes in place of the certificate / TBS) or 0-80 + 0-40 random bytes, under 0-3 edits (set / insert / delete byte, truncate, append, version / leaf type / entry type codes incl. 0x8000, length fields +-1..3, extra_data of the other entry type, empty / absent extra_data); ct.RawLogEntryFromLeaf and ct.LogEntryFromLeaf judged against internal/rfc6962 (accept <=> both parts decode completely and, for LogEntryFromLeaf, the certificate parse is non-fatal and nothing follows the DER value inside its vector; on accept tls.Marshal(entry.Leaf) == leaf_input, chain / submitted precertificate / index equal the reference). Non-trivial: >= 1 edit or a base other than a clean chain",
 	Quick: 6000, Thorough: 20000,
 }, genDec, checkDec)
 
